@@ -21,6 +21,7 @@ import Kust.Edit
 import Kust.Kustfile
 import Kust.Loc
 import Kust.Nameref
+import Kust.Repl
 import Kust.Gen.Lists
 import Kust.Gen.FieldSpecs
 import Kust.Gen.Lists
@@ -500,6 +501,42 @@ def runNameref (op : String) (a : Json) : Except String Json := do
     return outToJson Json.str (Nameref.newName cs ref target roleRef (jS a "oldName") cands)
   | _ => throw s!"unknown nameref op {op}"
 
+/-! ### replacement filter -/
+namespace ReplJ
+open Kust.Repl
+def kvOfJ (j : Json) : Option KV := if j.isNull then none else some (jPairs j)
+def kvToJ : Option KV → Json
+  | none => Json.null
+  | some m => Json.arr (m.map fun (k, v) => Json.arr #[Json.str k, Json.str v]).toArray
+def resOfJ (j : Json) : Res := ⟨jS j "kind", jS j "name", kvOfJ (j.getObjValD "labels"), kvOfJ (j.getObjValD "data")⟩
+def resToJ (r : Res) : Json := Json.mkObj [("kind", r.kind), ("name", r.name), ("labels", kvToJ r.labels), ("data", kvToJ r.data)]
+def fOfJ (j : Json) : Option FRef := match jStrs j with
+  | ["name"] => some .name
+  | ["label", k] => some (.label k)
+  | ["data", k] => some (.data k)
+  | _ => none
+def selOfJ (j : Json) : Sel :=
+  let l := j.getObjValD "label"
+  ⟨jS j "kind", jS j "name", if l.isNull then none else match jStrs l with | [k, v] => some (k, v) | _ => none⟩
+def optsOfJ (j : Json) : Option Opts := if j.isNull then none else some ⟨jS j "delim", jInt (j.getObjValD "index"), jB j "create"⟩
+def targetOfJ (j : Json) : Target :=
+  ⟨selOfJ (j.getObjValD "select"), (jArr (j.getObjValD "reject")).map selOfJ, (jArr (j.getObjValD "fields")).filterMap fOfJ, optsOfJ (j.getObjValD "opts")⟩
+def srcOfJ (j : Json) : Src := match jS j "t" with
+  | "value" => .value (jS j "s")
+  | "field" => .field (selOfJ (j.getObjValD "sel")) (fOfJ (j.getObjValD "f")) (optsOfJ (j.getObjValD "opts"))
+  | "both" => .both
+  | _ => .neither
+def replOfJ (j : Json) : Repl := ⟨srcOfJ (j.getObjValD "src"), (jArr (j.getObjValD "targets")).map targetOfJ⟩
+end ReplJ
+
+def runRepl (op : String) (a : Json) : Except String Json := do
+  match op with
+  | "apply" =>
+    let st := (jArr (a.getObjValD "state")).map ReplJ.resOfJ
+    let rs := (jArr (a.getObjValD "repls")).map ReplJ.replOfJ
+    return outToJson (fun st => Json.arr (st.map ReplJ.resToJ).toArray) (Repl.applyAll rs st)
+  | _ => throw s!"unknown repl op {op}"
+
 def dispatch (comp : String) (args : Json) : Except String Json :=
   match comp.splitOn "." with
   | ["fns", op] => runFns op args
@@ -517,6 +554,7 @@ def dispatch (comp : String) (args : Json) : Except String Json :=
   | ["edit", op] => runEdit op args
   | ["nameref", op] => runNameref op args
   | ["loc", op] => runLoc op args
+  | ["repl", op] => runRepl op args
   | _ => throw s!"unknown component {comp}"
 
 partial def loop (hin hout : IO.FS.Stream) : IO Unit := do
